@@ -247,6 +247,15 @@ def main(tier, replay=None):
             p.set_variable('y', y)
             env = dict(env0, vars={'x': {'t': 'flt', 'r': repr(x)}, 'y': {'t': 'flt', 'r': repr(y)}})
             obs.append(got_want(values.outcome(p.parse(text)), want, env, text, name))
+    # logarithms of numbers next to 1: tiny, but not zero - checked as a ratio, so that the size of the value does not hide it
+    for k in range(3, 14):
+        for sgn in (1, -1):
+            x = 1 + sgn * 10.0 ** -k * rng.choice([1, 2.5, 5])
+            for name, text in (('log10-near-one', 'LOG10(x)*LN(10)/LN(x)'), ('log-near-one', 'LOG(x,2)*LN(2)/LN(x)'),
+                               ('log-default-near-one', 'LOG(x)*LN(10)/LN(x)')):
+                p.set_variable('x', x)
+                env = dict(env0, vars={'x': {'t': 'flt', 'r': repr(x)}})
+                obs.append(got_want(values.outcome(p.parse(text)), 1, env, text, name))
     for name, text, want in CONST:
         obs.append(got_want(values.outcome(p.parse(text)), want, dict(env0, vars={}), text, name))
     # PV: annuity equation
@@ -255,6 +264,8 @@ def main(tier, replay=None):
     for i in range(400 if quick else 10000):
         rt = rng.choice([rng.randint(-900, 1000) / 1000, rng.choice([0.01, 0.05, 0.1, 0.125, -0.5, 1])])
         n = rng.randint(0, 40)
+        if i % 8 == 3:      # a fractional number of periods, also at negative rates (the equation holds for every real n)
+            n = rng.choice([7.5, 0.25, 12.75, 3.5, 20.125])
         if i % 8 == 0:      # rates close to, but not at, zero over many periods: still the annuity equation, not its limit
             rt = rng.choice([1, -1]) * rng.choice([2e-7, 5e-7, 9.9e-7, 1.5e-6, 1e-5, 1e-4, 0.001 / 12])
             n = rng.choice([120, 360, 1000])
